@@ -16,8 +16,8 @@ theorem Good.empty : Good {} := ⟨Inv.empty, PacketsTotal.empty⟩
 theorem Good.insertContainer {d : Db} (h : Good d) : Good d.insertContainer.1 := ⟨h.inv.insertContainer, h.total.insertContainer⟩
 theorem Good.insertBlock {d d' : Db} (h : Good d) (cid : Nat) (k o : Str) (he : d.insertBlock cid k o = some d') : Good d' :=
   ⟨h.inv.insertBlock cid k o he, h.total.insertBlock cid k o he⟩
-theorem Good.insertFrame {d d' : Db} (h : Good d) (cid par : Nat) (k o : Str) (he : d.insertFrame cid par k o = some d') : Good d' :=
-  ⟨h.inv.insertFrame cid par k o he, h.total.insertFrame cid par k o he⟩
+theorem Good.insertFrame {d d' : Db} (h : Good d) (cid par : Nat) (k o : Str) (hord : par < cid) (he : d.insertFrame cid par k o = some d') : Good d' :=
+  ⟨h.inv.insertFrame cid par k o hord he, h.total.insertFrame cid par k o he⟩
 theorem Good.deleteContainer {d : Db} (h : Good d) (id : Nat) : Good (d.deleteContainer id).1 :=
   ⟨h.inv.deleteContainer id, h.total.deleteContainer h.inv id⟩
 theorem Good.removeItem {d : Db} (h : Good d) (cid : Nat) (k : Str) : Good (d.removeItem cid k) := ⟨h.inv.removeItem cid k, h.total.removeItem h.inv cid k⟩
@@ -184,7 +184,7 @@ theorem createFrame_goodS {s : Store} (h : GoodS s) (hd : CH) (n : Option Name) 
   split
   · exact h1.rollbackD s1 h1
   · rename_i d2 hi
-    exact (h1.setDb (h1.db.insertContainer.insertFrame _ _ _ _ hi)).commitD s1 h1
+    exact (h1.setDb (h1.db.insertContainer.insertFrame _ _ _ _ (insertFrame_parent_lt h1.db.inv _ _ _ hi) hi)).commitD s1 h1
 
 theorem destroyContainer_goodS {s : Store} (h : GoodS s) (hd : CH) : GoodS (destroyContainer s hd).1 := by
   unfold destroyContainer
